@@ -2,6 +2,7 @@
 //! usage: h <mode> < cases > observations
 mod common;
 mod m_adapt;
+mod m_chain;
 mod m_diff;
 mod m_obs;
 mod m_ovec;
@@ -15,6 +16,7 @@ fn main() {
         "diff" => m_diff::run_line,
         "adapt" => m_adapt::run_line,
         "ovec" => m_ovec::run_line,
+        "chain" => m_chain::run_line,
         "obs" => {
             m_obs::check_hashes();
             m_obs::run_line
